@@ -111,7 +111,7 @@ SApply(e) ==
     \/ e.op \notin {"step", "wtxn", "commit", "newtable", "deadlock", "iterclose", "gcscan"} /\ Apply(e)
 
 \* ------------------------------------------------------------ judgements
-RootGates == {"commit.rootlocked", "commit.stored", "register.locked", "register.stored"}
+RootGates == {"commit.rootlocked", "commit.rootbuilt", "commit.stored", "register.locked", "register.stored"}
 Life(e) == Range(e.life)
 MyTables(e) == UNION { Range(r.tables) : r \in { q \in Life(e) : q.actor = e.actor } }
 
